@@ -283,8 +283,9 @@ void ObjectFile::invalidate()
 // Refresh the object if necessary
 void ObjectFile::refresh(bool isFirstTime /* = false */)
 {
-	// Check if we're in the middle of a transaction
-	if (inTransaction)
+	// Check if we're in the middle of a transaction; a forced reload is
+	// used when the transaction is started or aborted
+	if (inTransaction && !isFirstTime)
 	{
 		DEBUG_MSG("The object is in a transaction");
 
@@ -767,26 +768,37 @@ std::string ObjectFile::getLockname() const
 // N.B.: Starting a transaction locks the object!
 bool ObjectFile::startTransaction(Access)
 {
-	MutexLocker lock(objectMutex);
-
-	if (inTransaction)
 	{
-		return false;
+		MutexLocker lock(objectMutex);
+
+		if (inTransaction)
+		{
+			return false;
+		}
+
+		transactionLockFile = new File(lockpath, umask, false, true, true);
+
+		if (!transactionLockFile->isValid() || !transactionLockFile->lock())
+		{
+			delete transactionLockFile;
+			transactionLockFile = NULL;
+
+			ERROR_MSG("Failed to lock file %s for attribute transaction", lockpath.c_str());
+
+			return false;
+		}
+
+		inTransaction = true;
 	}
 
-	transactionLockFile = new File(lockpath, umask, false, true, true);
-
-	if (!transactionLockFile->isValid() || !transactionLockFile->lock())
+	// Another process may have changed the object after it was last read and
+	// before the transaction lock was obtained. Load that version now, since
+	// committing the transaction writes back all cached attributes and would
+	// otherwise undo the other change.
+	if (gen != NULL && gen->wasUpdated())
 	{
-		delete transactionLockFile;
-		transactionLockFile = NULL;
-
-		ERROR_MSG("Failed to lock file %s for attribute transaction", lockpath.c_str());
-
-		return false;
+		refresh(true);
 	}
-
-	inTransaction = true;
 
 	return true;
 }
